@@ -14,6 +14,7 @@ pub struct SigRow {
     pub self_lt: String,          // "" = no self, "_" = elided, else the named lifetime
     pub guard_lts: Vec<String>,   // lifetime of each `&'x Guard` parameter ("_" = elided)
     pub ret_lts: Vec<String>,     // lifetimes mentioned in the return type ("_" = elided/anonymous)
+    pub outlives: Vec<(String, String)>, // declared bounds 'a: 'b (a outlives b), of the method and its impl
     pub ret: String,
     pub returns_borrow: bool,
     pub has_static_bound: bool,
@@ -83,6 +84,25 @@ fn bounds_of(generics: &syn::Generics, param: &str) -> (bool, bool, bool) {
         }
     }
     (send, sync, st)
+}
+
+fn outlives_of(generics: &syn::Generics, out: &mut Vec<(String, String)>) {
+    for p in &generics.params {
+        if let syn::GenericParam::Lifetime(lp) = p {
+            for b in &lp.bounds {
+                out.push((lp.lifetime.ident.to_string(), b.ident.to_string()));
+            }
+        }
+    }
+    if let Some(w) = &generics.where_clause {
+        for pred in &w.predicates {
+            if let syn::WherePredicate::Lifetime(pl) = pred {
+                for b in &pl.bounds {
+                    out.push((pl.lifetime.ident.to_string(), b.ident.to_string()));
+                }
+            }
+        }
+    }
 }
 
 pub fn scan(file: &syn::File, fname: &str, types: &[&str]) -> (Vec<SigRow>, Vec<BoundRow>) {
@@ -157,7 +177,11 @@ pub fn scan(file: &syn::File, fname: &str, types: &[&str]) -> (Vec<SigRow>, Vec<
                 (v.0, borrow, txt)
             }
         };
+        let mut outlives = Vec::new();
+        outlives_of(&imp.generics, &mut outlives);
+        outlives_of(&f.sig.generics, &mut outlives);
         sigs.push(SigRow {
+            outlives,
             file: fname.into(),
             ty,
             trait_: fr.trait_.clone().unwrap_or_default(),
@@ -218,7 +242,8 @@ pub fn sig_coq(rows: &[SigRow]) -> String {
         "(* GENERATED by /verif/translator from /repo/src. Do not edit. *)\n\
          From Coq Require Import List String NArith.\nImport ListNotations.\nOpen Scope string_scope.\n\n\
          Record sigrow := { g_file : string; g_ty : string; g_trait : string; g_name : string; g_line : N;\n\
-         \x20 g_self : string; g_guards : list string; g_ret_lts : list string; g_ret : string;\n\
+         \x20 g_self : string; g_guards : list string; g_ret_lts : list string;\n\
+         \x20 g_outlives : list (string * string); g_ret : string;\n\
          \x20 g_borrow : bool; g_static : bool }.\n\nDefinition sigs : list sigrow := [\n",
     );
     s.push_str(
@@ -226,10 +251,11 @@ pub fn sig_coq(rows: &[SigRow]) -> String {
             .iter()
             .map(|r| {
                 format!(
-                    "  {{| g_file := {}; g_ty := {}; g_trait := {}; g_name := {}; g_line := {}%N; g_self := {}; g_guards := [{}]; g_ret_lts := [{}]; g_ret := {}; g_borrow := {}; g_static := {} |}}",
+                    "  {{| g_file := {}; g_ty := {}; g_trait := {}; g_name := {}; g_line := {}%N; g_self := {}; g_guards := [{}]; g_ret_lts := [{}]; g_outlives := [{}]; g_ret := {}; g_borrow := {}; g_static := {} |}}",
                     q(&r.file), q(&r.ty), q(&r.trait_), q(&r.name), r.line, q(&r.self_lt),
                     r.guard_lts.iter().map(|x| q(x)).collect::<Vec<_>>().join("; "),
                     r.ret_lts.iter().map(|x| q(x)).collect::<Vec<_>>().join("; "),
+                    r.outlives.iter().map(|(a, b)| format!("({}, {})", q(a), q(b))).collect::<Vec<_>>().join("; "),
                     q(&r.ret), r.returns_borrow, r.has_static_bound
                 )
             })
